@@ -76,7 +76,21 @@ def collide(a, b):
 def check_python(ops):
     """ops: list of ("var"|"func"|"clear", name).  Returns message or None."""
     from dagrt.codegen.python import PythonNameManager
-    nm = PythonNameManager()
+    try:
+        nm = PythonNameManager()
+        other = PythonNameManager()
+    except Exception as e:
+        return "Python: creating a name manager raised %s: %s" % (type(e).__name__, e)
+    # a second, separate manager that is alive at the same time and has already mapped some of the names: what it
+    # did must not show in the first one
+    for kind, name in ops[::2]:
+        try:
+            if kind == "var":
+                other[name]
+            elif kind == "func":
+                other.name_function(name)
+        except Exception:
+            pass
     first = {}
     local_scope = 0
     for kind, name in ops:
@@ -114,7 +128,19 @@ def check_python(ops):
 def check_fortran(ops):
     """ops: list of ("var"|"func"|"unique", name)."""
     from dagrt.codegen.fortran import FortranNameManager
-    nm = FortranNameManager()
+    try:
+        nm = FortranNameManager()
+        other = FortranNameManager()         # (see check_python)
+    except Exception as e:
+        return "Fortran: creating a name manager raised %s: %s" % (type(e).__name__, e)
+    for kind, name in ops[::2]:
+        try:
+            if kind == "var":
+                other[name]
+            elif kind == "func":
+                other.name_function(name)
+        except Exception:
+            pass
     first = {}
     first_rc, issued_rc = {}, {}
     issued = {}     # lower-cased bare identifier -> description
